@@ -8,16 +8,16 @@ FAILS = ["none", "resolve", "before", "aps", "init", "after", "early"]
 
 
 def scenario(n, single, slice_, lazy=(), wrap=None, fail=None, self_opt=None, slice_opt=None, order=None,
-             reg_order=None, lookups=(), seed=0, sid="", sparse=False, procs=()):
+             reg_order=None, lookups=(), seed=0, sid="", sparse=False, procs=(), mode=None):
     return dict(id=sid, n=n, single=[sorted(x) for x in single], selfOpt=list(self_opt or [False] * n),
                 slice=[sorted(x) for x in slice_], sliceOpt=list(slice_opt or [False] * n), lazy=sorted(lazy),
                 wrap=list(wrap or ["none"] * n), fail=list(fail or ["none"] * n),
                 order=list(order or range(1, n + 1)), regOrder=list(reg_order or range(1, n + 1)),
-                lookups=list(lookups), seed=seed, sparse=sparse, procs=list(procs))
+                lookups=list(lookups), seed=seed, sparse=sparse, procs=list(procs), mode=list(mode or ["normal"] * n))
 
 
 def rand_scenario(rng, n, p_edge=0.35, p_slice=0.3, wraps=False, fails=False, lazies=False, lookups=0,
-                  opt=True, max_single=8, sid="", procs=False):
+                  opt=True, max_single=8, sid="", procs=False, modes=False):
     single, slc = [], []
     for h in range(1, n + 1):
         s, l = set(), set()
@@ -48,8 +48,13 @@ def rand_scenario(rng, n, p_edge=0.35, p_slice=0.3, wraps=False, fails=False, la
     rng.shuffle(reg)
     lk = [rng.randint(1, n) for _ in range(rng.randint(0, lookups))] if lookups else []
     pr = [rng.random() < 0.5 for _ in range(rng.randint(0, 2))] if procs else []
+    md = ["normal"] * n
+    if modes:
+        for i in range(n):
+            if wrap[i] == "none" and rng.random() < modes:
+                md[i] = rng.choice(["beforeNil", "shortcut"])
     return scenario(n, single, slc, lazy, wrap, fail, self_opt, slice_opt, order, reg, lk,
-                    seed=rng.randint(0, 2 ** 31), sid=sid, procs=pr)
+                    seed=rng.randint(0, 2 ** 31), sid=sid, procs=pr, mode=md)
 
 
 def shaped(rng, n, shape, **kw):
